@@ -8,10 +8,10 @@ import subprocess
 ID = "C17"
 LEVEL = "exploration"
 RULE = ("objects for the five machines write_elf maps (x86_64, arm, riscv, xtensa, microblaze). Relocatable files: every section shape (size x alignment) "
-        "alone and small products of 2-3 sections; every single symbol (binding x type x place incl. undefined x size) and every order of 3 symbols "
+        "alone and small products of 2-3 sections; every single symbol (binding x type x place incl. undefined x size) and every order of 3 (thorough 4) symbols "
         "over {local, global, undefined} with identity/reversed/sparse ids; odd names; for x86_64 every (relocation type x symbol kind x addend x offset "
         "x section) and multi-relocation objects (other machines: relocation-free objects only, the NotImplementedError refusal is counted). Executables: "
-        "two object sets linked by ppci under every ordering of <= 2 (thorough 3) distinct layout items of {SECTION code/data/extra, SECTIONDATA data, "
+        "two (thorough four) object sets linked by ppci under every ordering of <= 2 (thorough 3) distinct layout items of {SECTION code/data/extra, SECTIONDATA data, "
         "ALIGN 8, DEFINESYMBOL s} cut into 1-2 memories x 3 location pairs (unaligned, page aligned, page aligned + 0x100) x entry symbol; plus small C "
         "and assembly sources through ppci.api. A case is one written file; distinct non-trivial = distinct (machine, file type, section/segment "
         "geometry relative to the page, symbol-kind pattern, relocation pattern, verdict)")
@@ -77,12 +77,12 @@ def rel_cases(tier):
                         put("symbol/one", G.obj(base, [G.sym("s", binding, place[0], place[1], typ, size)]))
         # three symbols, every kind pattern, three id schemes
         kinds = {"L": ("local", "code", 2), "G": ("global", "data", 1), "U": ("global", None, None)}
-        for pat in itertools.product("LGU", repeat=3):
+        for pat in itertools.chain(itertools.product("LGU", repeat=3), itertools.product("LGU", repeat=4) if tier != "quick" else ()):
             for ids in ("pos", "rev", "sparse"):
                 syms = []
                 for i, k in enumerate(pat):
                     b, sec_, off = kinds[k]
-                    sid = {"pos": i, "rev": 2 - i, "sparse": 10 * i + 3}[ids]
+                    sid = {"pos": i, "rev": len(pat) - 1 - i, "sparse": 10 * i + 3}[ids]
                     syms.append(G.sym("%s%d" % (k.lower(), i), b, sec_, None if off is None else off + i, "func" if i == 1 else "object", i, id=sid))
                 put("symbol/three", G.obj(base, syms))
         # names
@@ -121,10 +121,13 @@ L_ITEMS = [["SECTION", "code"], ["SECTION", "data"], ["SECTION", "extra"], ["SEC
 LOCATIONS = ((0x100, 0x2001), (0x1000, 0x3000), (0x400000, 0x600100))
 
 
-def exe_object_sets():
+def exe_object_sets(tier="quick"):
     from vf.gen import objgen as G
     out = []
-    for c in (((5, 8), (3, 2), (8, 4), (1, 1)), ((16, 4), (0, 4), (4, 4), (7, 8))):
+    shapes = [((5, 8), (3, 2), (8, 4), (1, 1)), ((16, 4), (0, 4), (4, 4), (7, 8))]
+    if tier != "quick":
+        shapes += [((1, 1), (1, 1), (1, 1), (1, 1)), ((0, 4), (16, 16), (3, 2), (0, 8))]
+    for c in shapes:
         sa = [G.sec("code", *c[0]), G.sec("data", *c[1])]
         sb = [G.sec("code", *c[2]), G.sec("extra", *c[3])]
         out.append([G.obj(sa, G.std_symbols(0, sa) + [G.sym("fn", "global", "code", 1, "func", 4)], tag=0), G.obj(sb, G.std_symbols(1, sb), tag=1)])
@@ -135,7 +138,7 @@ def exe_cases(tier):
     """[(label, arch, odescs, ldesc, extra)] executables."""
     from vf.gen import objgen as G
     out = []
-    osets = exe_object_sets()
+    osets = exe_object_sets(tier)
     max_len = 2 if tier == "quick" else 3
     for arch in ARCHS:
         full = arch in ("x86_64", "arm", "microblaze") or tier != "quick"
@@ -618,4 +621,4 @@ def replay(w):
     if p.violations:
         k = sorted(p.violations)[0]
         return True, "[%s] %s" % (k, p.violations[k][1])
-    return False, "accepted by both readers and read back faithfully (%s)" % dict(p.counters)
+    return False, "no violation: refused, or accepted by both readers and read back faithfully (%s)" % dict(p.counters)
